@@ -122,7 +122,9 @@ def canon_report(rep):
         if isinstance(v, list):
             del v[:]
     rep.created_webentities.clear()
-    rep.nb_created_pages = 0
+    # ... and goes on using it as its own running total
+    rep.nb_created_pages += 1000
+    rep.created_webentities[10**9] = [b"s:caller|h:own|"]
     return out
 
 
@@ -155,6 +157,10 @@ def resolve_refs(op, model):
                 pos = op.get("extra_pos", len(r["prefixes"]))
                 r["prefixes"] = r["prefixes"][:pos] + [x] + r["prefixes"][pos:]
     elif k == "add_prefix":
+        if op.get("own_id"):
+            # the id is the caller's to choose: any 32-bit value, issued by the index or not
+            r["weid"] = op["own_id"]
+            return r
         weid = model.pref.get(dec(op["ref"]))
         if weid is None:
             return None
@@ -476,6 +482,8 @@ def exec_sut(sut, op, refs, model):
             d = lrugen.RULES[op["default"]] if op.get("default") else None
             rules = {dec(a): lrugen.RULES[n] for a, n in op["rules"]} if op.get("rules") is not None else None
             g = _start_pending(t, op["pending"]) if op.get("pending") else None
+            if op.get("after_close"):
+                sut.close()  # clear() is the one request that is valid on a closed index: it reopens its files
             sut.clear(d, rules)
             if g is not None:
                 g.close()  # the caller drops the unfinished request only now
